@@ -259,6 +259,33 @@ def h_subclasses(ex):
     ex.real('dummy', 0, 1)
 
 
+def h_noise_attrs(ex):
+    """thermal-noise subclasses: reading values, assigning a new basis (amps / phases / rms)
+    and reading again gives what a fresh object with that basis gives."""
+    import pyrex.signals as sg
+    from harness.common import patched_random
+    from harness.C17 import amp_fun
+    n, band, cls_name, attr = ex.case['n'], ex.case['band'], ex.case['cls'], ex.case['attr']
+    cls = sg.FFTThermalNoise if cls_name == 'fft' else sg.FullThermalNoise
+    with patched_random(ex, sg, angle=True) as rnd:
+        times = ex.const_array([1.0 * i for i in range(n)])
+        A_ = cls(times, f_band=band, f_amplitude=amp_fun(ex, 'a'), rms_voltage=2.0)
+        B_ = cls(times, f_band=band, f_amplitude=amp_fun(ex, 'b'), rms_voltage=3.0)
+        vb = list(B_.values)
+        _ = list(A_.values)
+        if attr == 'amps':
+            A_.amps = B_.amps
+            A_.phases = B_.phases
+            A_.rms = B_.rms
+            want = vb
+        else:
+            A_.rms = 4.0
+            want = [2.0 * v for v in list(_)]
+        if ex.twin == 'stale':
+            want = list(_)
+        ex.close(A_.values, want, 'noise-values-follow-the-assigned-basis', tol=1e-9)
+
+
 # ---------------------------------------------------------------------------------
 # ray tracers / paths: assignment of a defining attribute invalidates derived quantities
 
@@ -337,6 +364,13 @@ HARNESSES = [
             cases={'quick': _cases('quick'), 'thorough': _cases('thorough')},
             budget={'quick': {'wall_s': 200}, 'thorough': {'wall_s': 600}}),
     Harness('subclasses', h_subclasses, _mods, encodes=_enc),
+    Harness('thermal-noise-attributes', h_noise_attrs, _mods, encodes=_enc, twins=('stale',),
+            cases={'quick': [{'n': 5, 'band': (0.15, 0.45), 'cls': c, 'attr': a}
+                             for c in ('fft', 'full') for a in ('amps', 'rms')],
+                   'thorough': [{'n': n, 'band': (0.15, 0.45), 'cls': c, 'attr': a}
+                                for n in (4, 5, 6) for c in ('fft', 'full')
+                                for a in ('amps', 'rms')]},
+            budget={'quick': {'wall_s': 200, 'query_timeout_ms': 60000}}),
     Harness('tracer-attributes', h_tracer_attrs, _rt_mods, encodes=_rt_enc, twins=('stale',),
             cases={'quick': [{'kind': k, 'how': h} for k in ('specialized', 'basic', 'uniform')
                              for h in ('assign_to', 'assign_from', 'iadd_to', 'ice')],
